@@ -1,8 +1,23 @@
 #!/bin/sh
-# usage: sweep.sh <wall-seconds> <seed> <outdir> PROP...   (runs thorough-tier generators with a wall cap, one after another)
+# usage: sweep.sh <wall-seconds> <seed> <outdir> PROP...   (thorough-tier generators under a wall cap, one after another;
+# keeps each check's output and evidence, then prints one summary line per property incl. the causes of aborted executions)
 wall=$1; seed=$2; out=$3; shift 3
 mkdir -p "$out"
 for p in "$@"; do
-  VERIF_SEED=$seed ./check $p --tier thorough --worlds 100000 --wall $wall > "$out/$p-$seed.out" 2>&1 </dev/null
+  VERIF_SEED=$seed ./check $p --tier thorough --worlds 1000000 --wall $wall > "$out/$p-$seed.out" 2>&1 </dev/null
   echo "exit $?" >> "$out/$p-$seed.out"
+  cp evidence/$p.json "$out/$p-$seed.evidence.json" 2>/dev/null
+  /venv/bin/python - "$out/$p-$seed.out" "$out/$p-$seed.evidence.json" <<'PY'
+import json, sys
+out = open(sys.argv[1]).read().strip().split("\n")
+try:
+    ev = json.load(open(sys.argv[2]))["coverage"]
+    aborts = {k: v for k, v in ev["faults_fired"].items() if k.startswith("abort")}
+except Exception:
+    aborts = "?"
+viol = [ln[:200] for ln in out if ln.startswith("VIOLATION") or ln.startswith("HARNESS") or ln.startswith("  clause=")]
+print(out[-2][:170], out[-1], "aborts:", aborts)
+for v in viol:
+    print("    ", v)
+PY
 done
